@@ -21,6 +21,14 @@ impl InterfaceInner {
             return None;
         }
 
+        // Per RFC 1122 §4.2.3.10 / RFC 9293 §3.10.7, a TCP segment addressed to a broadcast or
+        // multicast address must be silently discarded: it must neither reach a socket (a listener
+        // would otherwise take the broadcast address as its local endpoint) nor be answered by a
+        // reset (whose source would be that non-unicast address).
+        if self.is_broadcast(&dst_addr) || dst_addr.is_multicast() {
+            return None;
+        }
+
         let tcp_packet = check!(TcpPacket::new_checked(ip_payload));
         let tcp_repr = check!(TcpRepr::parse(
             &tcp_packet,
